@@ -250,3 +250,66 @@ Theorem C17_tcp_small_first_read_refuted :
     o_replay o ++ c17_unread (o_rest o) <> c17_unread s.
 Proof. exact tcp_small_first_read_refuted. Qed.
 Print Assumptions C17_tcp_small_first_read_refuted.
+
+(* ==== the SERVER side of the clause: what core/server does with the bytes the hook handed back
+   (model/C17_Putback.v: the hooked path of handleTCPRequest over the relay LTS of C06 - every interleaving of the two
+   copy loops and the teardown, every chunking, every error, logger or fast path).  The hook's own contract (the theorems
+   above: replay ++ unread = sent) says the client's stream behind the request is putback ++ (what the Up loop reads). *)
+From Hy Require Import gen.ParamsC06 model.C06_Relay model.C17_Putback proof.C17_Putback.
+
+(* For EVERY putback (any length: nothing depends on the size of a copy buffer) and every run in which the writers keep
+   the io.Writer contract and the direct write of the putback reported no error: as soon as the relay runs, the target's
+   stream is the putback followed by a prefix of what the Up loop took off the client's stream - nothing dropped,
+   duplicated, reordered or injected; before that the target has received nothing. *)
+Theorem C17_server_putback_then_relay : forall m tr s put,
+  hexec (hinit m) tr = Some s -> hwok tr -> hput_quiet tr -> In put (hooks tr) ->
+  match hp s with
+  | HRelay => htarget tr = put ++ snkb Up (hrel tr) /\ exists rest, srcb Up (hrel tr) = snkb Up (hrel tr) ++ rest
+  | _ => htarget tr = []
+  end.
+Proof. exact putback_then_relay. Qed.
+Print Assumptions C17_server_putback_then_relay.
+
+(* ... and all of the stream once the Up direction has read the client's stream to its end and returned nil. *)
+Theorem C17_server_putback_then_whole_stream : forall m tr s put,
+  hexec (hinit m) tr = Some s -> hwok tr -> hput_quiet tr -> In put (hooks tr) ->
+  (pcof (hin s) Up = PRet GNil \/ pcof (hin s) Up = PDone GNil) ->
+  hp s = HRelay /\ htarget tr = put ++ srcb Up (hrel tr).
+Proof. exact putback_then_whole. Qed.
+Print Assumptions C17_server_putback_then_whole_stream.
+
+(* No action of the relay (no Read of the client's stream, no LogTraffic, no Write) happens before the hook has returned
+   and a non-empty putback has been handed to the target connection. *)
+Theorem C17_server_relay_only_after_putback : forall m pre x post s,
+  hexec (hinit m) (pre ++ HARel x :: post) = Some s ->
+  exists put, hooks pre = [put] /\ (put <> [] -> exists nw ew, In (HAPutWrite put nw ew) pre).
+Proof. exact relay_after_putback. Qed.
+Print Assumptions C17_server_relay_only_after_putback.
+
+(* StreamStats.Tx counts the putback and everything handed to LogTraffic for the Up direction. *)
+Theorem C17_server_stats_count_putback : forall m tr s put,
+  hexec (hinit m) tr = Some s -> hwok tr -> hput_quiet tr -> In put (hooks tr) -> hp s = HRelay ->
+  hstats_tx s = u64 (blen put + txsum (hrel tr)).
+Proof. exact stats_tx. Qed.
+Print Assumptions C17_server_stats_count_putback.
+
+(* hput_quiet is needed: `n, _ := tConn.Write(putback)` drops the error, so after a partial write that reported an error
+   the relay goes on and the target's stream is no longer a prefix of what the client sent (writers within the contract). *)
+Theorem C17_server_putback_write_error_is_dropped : exists tr s put,
+  hexec (hinit Logged) tr = Some s /\ hwok tr /\ hooks tr = [put] /\ hp s = HRelay /\
+  ~ exists rest, put ++ srcb Up (hrel tr) = htarget tr ++ rest.
+Proof. exact put_write_error_dropped. Qed.
+Print Assumptions C17_server_putback_write_error_is_dropped.
+
+(* The putback must not be staged through the copy buffer ("the result of the first read"): for every putback longer
+   than the buffer the staged head followed by anything differs from the putback followed by the same. *)
+Theorem C17_server_staging_would_truncate : forall put rest,
+  CopyBufSize < blen put -> staged_head put ++ rest <> put ++ rest.
+Proof. exact staging_truncates. Qed.
+Print Assumptions C17_server_staging_would_truncate.
+
+(* Non-vacuity: a hooked connection from request to teardown. *)
+Theorem C17_server_example_run : exists s, hexec (hinit Logged) put_run = Some s /\ hp s = HRelay /\ par (hin s) = QDone /\
+  hooks put_run = [[x47; x45; x54]] /\ htarget put_run = [x47; x45; x54; x20; x2f] /\ hstats_tx s = 5.
+Proof. exact put_run_ok. Qed.
+Print Assumptions C17_server_example_run.
